@@ -3,6 +3,7 @@ From Coq Require Import List NArith ZArith Bool.
 From Coq Require Import QArith.
 From NV Require Import Prelude.Str Prelude.Res Prelude.Sx Model.Url Model.Redirect Model.Bucket Model.Ip Model.Titan Model.ServerProto Model.Proxy Model.ClientProto Model.Tofu Model.Session Model.Fs Model.Static Model.Listing Model.CertAuth Model.Certs.
 From NV Require Model.Reload.
+From NV Require Model.CliClient.
 From NV Require Spec.C19 Spec.C16 Spec.C10 Spec.C09 Spec.ServerTrace Spec.C01 Spec.C04 Spec.C07 Spec.C15 Spec.C08 Spec.C17 Spec.C13 Spec.C03 Spec.C12 Spec.C11 Spec.C18 Spec.C02 Spec.C14 Spec.C05.
 Import ListNotations.
 Open Scope N_scope.
@@ -287,6 +288,13 @@ Definition dispatch (name : str) (arg : sx) : sx :=
     (* arg: follow max url table ip6table *)
     show_walk (get (fetch_of (nth_sx 4 arg) (nth_sx 3 arg)) (as_bool (nth_sx 0 arg))
                    (N.to_nat (as_N (nth_sx 1 arg))) (as_str (nth_sx 2 arg)))
+  else if eqb name (lit "cli_get") then
+    (* the command line `nauyaca get url [-r max] [--no-redirects]` (Model/CliClient.v).  arg: no_redirects max url table ip6table;
+       result: outcome, URLs connected to in order, exit status *)
+    match Model.CliClient.cli_get (fetch_of (nth_sx 4 arg) (nth_sx 3 arg)) (as_str (nth_sx 2 arg))
+                                  (N.to_nat (as_N (nth_sx 1 arg))) (as_bool (nth_sx 0 arg)) with
+    | (o, log, code) => L [show_outcome o; L (map A log); sN code]
+    end
   else if eqb name (lit "C16.ok") then
     (* arg: follow max url table ip6table outcome log *)
     sB (Spec.C16.ok (tab_of (nth_sx 4 arg) (nth_sx 3 arg)) (as_bool (nth_sx 0 arg))
